@@ -216,6 +216,10 @@ var hookCounter atomic.Uint64
 
 // callHash runs the real hasher with the observation hooks installed.
 // inject is called at every hook point (from the goroutine that hit it).
+// quiescePolls is how long (in half milliseconds) to wait for the goroutines of a call to be
+// gone: C18 judges leaks and waits long, C04 only records them.
+var quiescePolls = 20000
+
 func callHash(list []string, delay bool, inject func(name string, args []string)) hashObs {
 	var o hashObs
 	var mu sync.Mutex
@@ -256,7 +260,7 @@ func callHash(list []string, delay bool, inject func(name string, args []string)
 	// quiescence: the feeder, the closer and the workers are all on their way out
 	// (polled for up to 10 s so that a loaded machine cannot turn slowness into a verdict: a goroutine
 	// that is really left behind is blocked for good and is still there afterwards)
-	for i := 0; i < 20000; i++ {
+	for i := 0; i < quiescePolls; i++ {
 		o.GorAfter = runtime.NumGoroutine()
 		if o.GorAfter <= o.GorBefore && starts.Load() == exits.Load() {
 			break
@@ -351,6 +355,9 @@ func c04Lists(c *core.Ctx, st hashState, r *core.Rng) []c04list {
 		}
 		sizes = append(sizes, 1000, 10000)
 	}
+	if !c.Thorough() && (st.ID == 0 || st.ID == len(c04States())-1) {
+		sizes = append(sizes, 1500, 3000) // beyond any plausible batch size; only where the states are identical
+	}
 	for _, sz := range sizes {
 		if sz > st.NBulk {
 			continue
@@ -384,6 +391,7 @@ func c04Keys(st hashState, list []string) (multiKey, setKey string, nfiles int) 
 }
 
 func c04Worker(c *core.Ctx, job hashJob, res *core.ShardResult, wl *core.WLog) {
+	quiescePolls = 100 // leaks are C18's business: do not wait for them here
 	st := job.State
 	r := c.Rng(core.StrKey("c04"), uint64(st.ID)) // the same lists for every CPU configuration
 	lists := c04Lists(c, st, r)
@@ -433,6 +441,33 @@ func c04Worker(c *core.Ctx, job hashJob, res *core.ShardResult, wl *core.WLog) {
 		}
 		res.Count("lists", 1)
 	}
+	// a file whose content is another content followed by a slice of itself: what a read loop
+	// that hashes a stale buffer tail cannot tell apart (buffer sizes 4 KiB .. 64 KiB)
+	bigPriv := fmt.Sprintf("privbig.%d.%d", os.Getpid(), st.ID)
+	bigFull := filepath.Join(st.Root, bigPriv)
+	defer os.Remove(bigFull)
+	base70 := content("k70")
+	variants := [][]byte{base70}
+	for _, bsz := range []int{4096, 8192, 16384, 32768, 65536} {
+		// the last, partial read leaves bytes k..B of the previous full chunk in the buffer
+		k, m := len(base70)%bsz, len(base70)/bsz
+		variants = append(variants, append(append([]byte{}, base70...), base70[(m-1)*bsz+k:m*bsz]...))
+		variants = append(variants, append(append([]byte{}, base70...), base70[k:bsz]...))
+	}
+	variants = append(variants, base70[:len(base70)-1], append(append([]byte{}, base70...), 0))
+	for _, body := range variants {
+		_ = os.WriteFile(bigFull, body, 0o644)
+		o := callHash([]string{bigFull}, false, nil)
+		res.Evaluations++
+		if o.Err != nil {
+			continue
+		}
+		tmp := hashState{Root: st.Root, Sums: map[string]string{bigPriv: core.ShaHex(body)}}
+		mk, sk, nf := c04Keys(tmp, []string{bigPriv})
+		lj, _ := json.Marshal([]string{fmt.Sprintf("%s (%d bytes, sha256 %s)", bigPriv, len(body), core.ShaHex(body)[:12])})
+		fmt.Fprintf(w, "%s\t%s\t%s\t%d\t%d\t%s\n", mk, sk, o.Digest, st.ID, nf, lj)
+		res.Count("self_tail_variants", 1)
+	}
 	// within one process: the content of a file changes while its size and modification time stay
 	// the same (cp -p, rsync -t, a build step restoring timestamps)
 	priv := fmt.Sprintf("priv.%d.%d", os.Getpid(), st.ID)
@@ -475,7 +510,7 @@ type triple struct {
 func c04Run(c *core.Ctx) bool {
 	root := filepath.Join(c.TempDir("c04-"), "tree")
 	_ = os.MkdirAll(root, 0o755)
-	nbulk := c.Q(80, 10000)
+	nbulk := c.Q(3000, 10000)
 	states := c04States()
 	total := core.NewShardResult()
 	byMulti := map[string]triple{}
@@ -563,7 +598,7 @@ func c04Run(c *core.Ctx) bool {
 	cov := map[string]any{
 		"evaluations":             total.Evaluations,
 		"distinct_nontrivial":     total.Nontrivial,
-		"rule":                    "a universe of 11 files (names that are prefixes/concatenations of each other, nested, empty, 70 KB, 1 MiB+1) plus directories and bulk files is materialised in 6 successive content states at the same paths (a state in which path and content share a boundary - file a = 'bx' next to file ab = 'x' -, single-byte changes at the last byte / beyond 4 KiB, 64 KiB and 1 MiB, swapped contents, empty<->non-empty, revert); every worker also rewrites a private file in place with the same size and modification time and hashes it again in the same process; in every state every sub-list of size <=3, sampled larger ones, lists with duplicates, with directories and of the sizes around the worker-count boundaries are hashed repeatedly in shuffled order by child processes for each (taskset CPUs, GOMAXPROCS) configuration, with seeded delays at hash.worker.send. One global table over all states and configurations: equal multiset of (abs path, content) => equal digest; equal digest => equal underlying set. evaluations = Hash calls; non-trivial = distinct multisets with >=2 files",
+		"rule":                    "a universe of 11 files (names that are prefixes/concatenations of each other, nested, empty, 70 KB, 1 MiB+1) plus directories and bulk files is materialised in 6 successive content states at the same paths (a state in which path and content share a boundary - file a = 'bx' next to file ab = 'x' -, single-byte changes at the last byte / beyond 4 KiB, 64 KiB and 1 MiB, swapped contents, empty<->non-empty, revert); every worker also rewrites a private file in place with the same size and modification time, and a private 70 KB file with contents that are 'the original followed by a slice of itself' (stale-buffer family, buffer sizes 4-64 KiB), and hashes them again in the same process; lists of 1500 and 3000 files in the first and last state; in every state every sub-list of size <=3, sampled larger ones, lists with duplicates, with directories and of the sizes around the worker-count boundaries are hashed repeatedly in shuffled order by child processes for each (taskset CPUs, GOMAXPROCS) configuration, with seeded delays at hash.worker.send. One global table over all states and configurations: equal multiset of (abs path, content) => equal digest; equal digest => equal underlying set. evaluations = Hash calls; non-trivial = distinct multisets with >=2 files",
 		"samples":                 []any{map[string]any{"state": states[1], "example_lists": [][]string{{"a", "ab"}, {"ab", "a"}, {"a", "a"}, {"d", "a"}, {"big1m", "c", "d/ab"}}}},
 		"counters":                total.Counters,
 		"observations":            ntriples,
@@ -991,6 +1026,8 @@ func c18BinaryCase(c *core.Ctx, kind string, i int, res *core.ShardResult) (vs [
 			Detail: fmt.Sprintf(format, a...) + fmt.Sprintf(" [kind %s exit %d stderr %s]", kind, inv.Exit, core.Trunc(inv.Stderr, 600)), Events: map[string]any{"invocation": inv}})
 	}
 	switch {
+	case inv.TimedOut:
+		bad("no-deadlock", "spok did not finish")
 	case inv.Crashed():
 		bad("no-crash", "spok died instead of reporting an error")
 	case inv.Race:
